@@ -27,87 +27,104 @@ def run(ctx, rep):
     rep.rule("R15.6", "a synchronous request is an asynchronous one carrying the configured timeout; timed() sets the expiry on what it returns")
     rep.assume("exactness against a real clock and negative-timeout semantics are not decided")
 
-    # ------------------------------------------------------------------ R15.1
+    # ------------------------------------------------------------------ R15.1 / R15.3 (model evaluation of the result object)
+    from .. import miniinterp as MI
+    arc = ctx.cls(AR)
+    for mname in ("__init__", "__call__", "add_callback", "expired"):
+        if mname in arc.methods:
+            rep.analysed(arc.methods[mname])
     fc = ctx.func(AR + ".__call__")
-    g = ctx.cfg(fc)
-    rep.analysed(fc, g)
-    dom = Q.dominators(g)
-    exp_tests = [n for n in g.live if n.kind == "test" and A.src(n.ast) == "self.expired"]
-    if exp_tests:
-        t = exp_tests[0]
-        okr = all(isinstance(s.ast, ast.Return) for s, l in t.succ if l == "true")
-        rep.ob("R15.1", "AsyncResult.__call__: an expired result returns at once", okr,
-               "`if self.expired: return`" if okr else "the expired branch does not return immediately", ctx.loc(t))
-    else:
-        rep.ob("R15.1", "AsyncResult.__call__: an expired result returns at once", False,
-               "__call__ no longer tests self.expired: a reply arriving after the expiry is accepted and its callbacks run",
-               fc.loc)
-    effects = [n for n in g.live if n.kind in ("stmt", "for", "iter") and n.ast is not None and (
-        (isinstance(n.ast, ast.Assign) and any(K.self_attr(x) for x in n.ast.targets)) or
-        isinstance(n.ast, ast.Delete) or (n.kind == "stmt" and A.calls(n.ast) and not isinstance(n.ast, ast.Return)))]
-    rep.floor("R15.1", "state writes / callback invocations in AsyncResult.__call__", len(effects), 4)
-    bad = []
-    for e in effects:
-        conds = {A.src(x.ast): pol for x, pol in Q.dominating_conditions(g, e, dom)}
-        if conds.get("self.expired") is not False:
-            bad.append(e)
-    rep.ob("R15.1", "AsyncResult.__call__: every effect happens only if the result had not expired", not bad,
-           "%d effects, all dominated by the negative edge of the expired test" % len(effects) if not bad else
-           "a reply arriving after the expiry still %s" % "; ".join(b.text()[:40] for b in bad),
-           ctx.loc(bad[0]) if bad else fc.loc)
+    fa = ctx.func(AR + ".add_callback")
+    meths = {n: m.node for n, m in arc.methods.items()}
 
+    class _TTL:
+        mi_native = True
+
+        def __init__(self):
+            self.is_expired = False
+
+        def expired(self):
+            return self.is_expired
+
+    def fresh_result():
+        ttl = _TTL()
+        state = {}
+        extra = {"__calls__": {"Timeout": lambda *a: ttl}, "__methods__": meths, "__max_iter__": 200}
+        MI.call_method(meths["__init__"], state, ["CONN"], extra)
+        return state, ttl, extra
+
+    def add_cb(state, extra, fn):
+        MI.call_method(meths["add_callback"], state, [fn], extra)
+
+    def deliver(state, extra, is_exc, obj):
+        MI.call_method(meths["__call__"], state, [is_exc, obj], extra)
+
+    def outcome(state):
+        return {k: state.get(k) for k in ("_is_ready", "_is_exc", "_obj")}
+    bad1, bad3 = [], []
+    try:
+        # (a) callbacks registered before the reply: each once, in order, with the result object; the list ends empty
+        state, ttl, extra = fresh_result()
+        log = []
+        add_cb(state, extra, lambda r: log.append(("a", r)))
+        add_cb(state, extra, lambda r: log.append(("b", r)))
+        if log:
+            bad3.append("a callback registered before the reply is invoked at registration time")
+        deliver(state, extra, False, "VALUE")
+        if [x[0] for x in log] != ["a", "b"] or any(x[1] != "__SELF__" for x in log):
+            bad3.append("callbacks registered as a, b before the reply are invoked as %s" % [x[0] for x in log])
+        if outcome(state) != {"_is_ready": True, "_is_exc": False, "_obj": "VALUE"}:
+            bad1.append("after a reply in time the result is %s" % outcome(state))
+        if [v for k, v in state.items() if isinstance(v, list) and v]:
+            bad3.append("callbacks stay registered after delivery (they would run again on a duplicate reply)")
+        # (b) registering after the reply: invoked at once, exactly once, not kept
+        log2 = []
+        add_cb(state, extra, lambda r: log2.append("c"))
+        if log2 != ["c"] or [v for k, v in state.items() if isinstance(v, list) and v]:
+            bad3.append("a callback registered after the reply is invoked %d time(s) at registration%s" % (
+                len(log2), " and kept in the list" if [v for k, v in state.items() if isinstance(v, list) and v] else ""))
+        # (c) an exception reply
+        state, ttl, extra = fresh_result()
+        deliver(state, extra, True, "EXC")
+        if outcome(state) != {"_is_ready": True, "_is_exc": True, "_obj": "EXC"}:
+            bad1.append("after an exception reply the result is %s" % outcome(state))
+        # (d) a reply after the expiry is discarded entirely
+        state, ttl, extra = fresh_result()
+        log4 = []
+        add_cb(state, extra, lambda r: log4.append("late"))
+        before = outcome(state)
+        ttl.is_expired = True
+        deliver(state, extra, False, "LATE")
+        if outcome(state) != before or log4:
+            bad1.append("a reply arriving after the expiry is accepted: result %s, callbacks run %s" % (outcome(state), log4))
+        # (e) a callback that registers another callback while the reply is being delivered
+        state, ttl, extra = fresh_result()
+        log5 = []
+
+        def first(r):
+            log5.append("first")
+            add_cb(state, extra, lambda r2: log5.append("nested"))
+        add_cb(state, extra, first)
+        add_cb(state, extra, lambda r: log5.append("second"))
+        deliver(state, extra, False, "V")
+        if sorted(log5) != ["first", "nested", "second"]:
+            bad3.append("a callback registered from inside a running callback: invocations %s (each of first/second/nested must run "
+                        "exactly once)" % log5)
+    except MI.Raised as r_:
+        bad1.append("delivery raises %s" % r_.name)
+    except RecursionError:
+        bad3.append("a callback that registers another callback during delivery re-enters the delivery without bound")
+    except AnalysisError as e_:
+        rep.undecided("R15.1", "the AsyncResult model", str(e_))
+    rep.ob("R15.1", "AsyncResult.__call__: a reply in time is recorded; a reply after the expiry is discarded without any effect", not bad1,
+           "value / exception / late reply evaluated on the model result object" if not bad1 else "; ".join(bad1), fc.loc, kind="table")
     # ------------------------------------------------------------------ R15.2
     K.share(ctx, rep, "c13", lambda o: o.rule == "R13.5", "R15.2", floor=3)
 
     # ------------------------------------------------------------------ R15.3
-    loops = [n for n in A.walk(fc.node) if isinstance(n, ast.For)]
-    okl = len(loops) == 1 and A.src(loops[0].iter) == "self._callbacks" and len(loops[0].body) == 1 and \
-        isinstance(loops[0].body[0], ast.Expr) and isinstance(loops[0].body[0].value, ast.Call) and \
-        A.src(loops[0].body[0].value.func) == A.src(loops[0].target) and \
-        [A.src(a) for a in loops[0].body[0].value.args] == ["self"]
-    rep.ob("R15.3", "AsyncResult.__call__: callbacks are invoked in a plain forward loop, each once, with the result", okl,
-           "for cb in self._callbacks: cb(self)" if okl else
-           "callbacks are not invoked by a plain forward iteration over the registration list", ctx.loc(loops[0]) if loops else fc.loc)
-    clears = [n for n in g.live if n.kind == "stmt" and n.ast is not None and (
-        (isinstance(n.ast, ast.Delete) and "self._callbacks" in A.src(n.ast)) or A.find_calls(n.ast, "self._callbacks.clear")
-        or (isinstance(n.ast, ast.Assign) and any(K.self_attr(x, "_callbacks") for x in n.ast.targets)))]
-    ready_sets = [n for n in g.live if n.kind == "stmt" and isinstance(n.ast, ast.Assign) and any(
-        K.self_attr(x, "_is_ready") for x in n.ast.targets)]
-    p = None
-    if ready_sets:
-        p = Q.find_path(ready_sets[0], [g.exit], avoid=clears, labels=("next", "true", "false"))
-    okc = bool(clears) and p is None
-    rep.ob("R15.3", "AsyncResult.__call__: the callback list is emptied after delivery", okc,
-           "the list is cleared on every normal path after the result became ready" if okc else
-           "callbacks stay registered after delivery (they run again / leak)", ctx.loc(clears[0]) if clears else fc.loc,
-           witness=ctx.path(p) if p else None)
-    if loops and clears:
-        fornode = [n for n in g.live if n.kind == "for"]
-        oko = all(any(fn.id in dom[c.id] for fn in fornode) for c in clears)
-        rep.ob("R15.3", "AsyncResult.__call__: the list is emptied after (not before) the callbacks ran", oko,
-               "the loop dominates the clearing statement" if oko else "the list is emptied before the callbacks run", ctx.loc(clears[0]))
-    fa = ctx.func(AR + ".add_callback")
-    ga = ctx.cfg(fa)
-    rep.analysed(fa, ga)
-    doma = Q.dominators(ga)
-    ap = A.params(fa.node)
-    calls_now = [n for n in ga.live if n.kind == "stmt" and n.ast is not None and any(
-        isinstance(c.func, ast.Name) and c.func.id == ap[1] for c in A.calls(n.ast))]
-    regs = [n for n in ga.live if n.kind == "stmt" and n.ast is not None and any(
-        isinstance(c.func, ast.Attribute) and c.func.attr in ("append", "insert", "appendleft", "add") and
-        K.self_attr(c.func.value, "_callbacks") for c in A.calls(n.ast))]
-    ok = len(calls_now) == 1 and len(regs) == 1
-    if ok:
-        c1 = {A.src(x.ast): pol for x, pol in Q.dominating_conditions(ga, calls_now[0], doma)}
-        c2 = {A.src(x.ast): pol for x, pol in Q.dominating_conditions(ga, regs[0], doma)}
-        ok = c1.get("self._is_ready") is True and c2.get("self._is_ready") is False
-        reg = [c for c in A.calls(regs[0].ast) if isinstance(c.func, ast.Attribute)][0]
-        ok = ok and reg.func.attr == "append" and [A.src(a) for a in reg.args] == [ap[1]]
-        now = [c for c in A.calls(calls_now[0].ast) if isinstance(c.func, ast.Name)][0]
-        ok = ok and [A.src(a) for a in now.args] == ["self"]
-    rep.ob("R15.3", "add_callback: runs at once iff already ready, otherwise appends at the end", ok,
-           "if self._is_ready: func(self) else: self._callbacks.append(func)" if ok else
-           "add_callback no longer (runs-now-if-ready | appends-in-order)", fa.loc)
+    rep.ob("R15.3", "callbacks run exactly once, in registration order; after the reply they run at registration; nothing stays registered",
+           not bad3, "before/after/nested registration evaluated on the model result object" if not bad3 else "; ".join(bad3),
+           fa.loc, kind="table")
     others = []
     for m in ctx.repo.modules.values():
         for n in ast.walk(m.tree):
